@@ -385,7 +385,7 @@ def printer_trace(ctx, aspect_layout, aspect_roundtrip):
     lines = [x for x in open(trace).read().split('\n') if x]
     wanted = []
     if aspect_layout:
-        wanted += [(aspect_layout, l, 'recorded text differs from JsonPrinter!Print(value, options)') for l in res['bad']]
+        wanted += [(aspect_layout, l, 'recorded text differs from JsonPrinter!Render(value, options)') for l in res['bad']]
     if aspect_roundtrip:
         wanted += [(aspect_roundtrip, l, 'recorded text does not parse back to the printed value') for l in res['bad2']]
     summ = {'label': label, 'events': res['events'], 'validated': res['events'] - len({l for _, l, _ in wanted}),
@@ -575,6 +575,14 @@ def c19(ctx):
     consts = {'Docs': 'QuickDocs' if ctx.quick else 'ThoroughDocs'}
     r = ctx.mc(f'macro_{ctx.tier}', 'MC_Macro', consts, {}, ['Expands', 'MacroIsParse', 'Dump'], spec='MSpec')
     ctx.replay([r['out']], ['C19.'])
+    trace, s = ctx.record('record-macro', 'macro.ndjson', ['--n', 150 if ctx.quick else 1500])
+    for ce in s.get('compile_errors', []):
+        ctx.mismatches.append(('C19.compile', ce))
+    if s.get('events', 0) > 0:
+        reasons_trace(ctx, 'macro', 'TraceMacro', trace, lambda ev, why: 'C19.trace_' + why,
+                      lambda ev, why: f'recorded json! invocation: {why}', rec_summary=s)
+    elif not s.get('compile_errors'):
+        raise ToolError('record-macro produced no event')
     ctx.extra['rule'] = ('one case = one json! invocation enumerated by TLC from the macro-muncher specification (trailing commas after scalars and '
                          'containers, literal / parenthesized / expression keys, duplicate keys, negative and float literals, expression values), emitted '
                          'as Rust source, compiled against the current tree and compared with Value::parse_str of the matching text')
